@@ -24,6 +24,15 @@ if wave and wave >= '3':
               'callee or dropped on one of several call sites, a default that differs between two entry points, an error path that\n'
               'leaves an object half-updated, a loop that stops early or skips the last element, a sort that is not stable or is applied\n'
               'to only some of several aligned arrays, an accumulation in the wrong dtype or with a misplaced normalisation.\n')
+if wave and wave >= '5':
+    EXTRA += ('Also already caught: inputs handed over with an unusual type or container (integer arrays, Python ints, numpy scalars,\n'
+              'lists / tuples instead of arrays), requests in descending or shuffled order, sources or components added after build(),\n'
+              'options that only matter when something is switched on later.  Good hunting grounds that remain: code paths taken only for\n'
+              'particular *combinations* of three or more settings; arithmetic that is only wrong for extreme-but-legal magnitudes\n'
+              '(very small / very large ratios, pressures, temperatures, counts); off-by-one at exactly one boundary of a loop over\n'
+              'layers, bins, samples, ranks or quadrature points; sign / direction conventions (ascending vs descending, top vs bottom);\n'
+              'places where two code paths that should agree (cross-sections vs k-tables, nestle vs multinest vs polychord,\n'
+              'transmission vs emission vs direct image, text vs HDF5, model() vs model_contrib()) have drifted apart.\n')
 if wave and wave >= '4':
     import glob, os
     prev = []
